@@ -278,6 +278,11 @@ func processFailures() {
 		}
 	}
 	r.Add("failing_program_groups", int64(len(reps)))
+	const maxGroups = 3000 // only reached when nearly everything fails; the first groups are the smallest programs
+	if len(reps) > maxGroups {
+		r.Add("failing_program_groups_not_minimised", int64(len(reps)-maxGroups))
+		reps = reps[:maxGroups]
+	}
 	midClasses := map[string]int{}
 	for i := range fs {
 		if isMidTx(&fs[i].f) {
